@@ -760,6 +760,13 @@ def main():
         if is_known:
             known_lines.append(f"KNOWN-FINDING: property={prop} obligation={oid} {known[oid]['what']}")
             continue
+        # an un-named failure (panic / overflow / OOB) whose native replay panics INSIDE the harness file itself is a
+        # harness defect (e.g. the harness slices its own buffer out of range), not a property violation
+        if o.get("implicit") and reproduced:
+            pm = re.search(r"panicked at (\S+?):\d+:\d+", excerpt or "")
+            if pm and "verif/harness" in pm.group(1):
+                undecided.append(f"{oid}: the panic is raised by the harness itself ({pm.group(1)}) -- harness defect, not a violation")
+                continue
         json.dump(doc, open(replay_path, "w"), indent=1)
         if reproduced is False and u.nondet_stubs:
             undecided.append(f"{oid}: failed against a nondeterministic contract stub but does not reproduce on the real callee")
